@@ -804,9 +804,18 @@ class DataAccessObject(HasGeneric[T]):
         :param state: The conversion state.
         :return: A dictionary of keyword arguments derived from the base DAO and mapping.
         """
-        base = self.__class__.__bases__[0]
+        # the alternatively mapped DAO can be any ancestor, not only the direct base
+        base = next(
+            (
+                ancestor
+                for ancestor in self.__class__.__mro__[1:]
+                if hasattr(ancestor, "__tablename__")
+                and self.uses_alternative_mapping(ancestor)
+            ),
+            None,
+        )
         base_kwargs: Dict[str, Any] = {}
-        if self.uses_alternative_mapping(base):
+        if base is not None:
             parent_dao = base()
             state.temporary_daos.append(parent_dao)
             parent_mapper = sqlalchemy.inspection.inspect(base)
